@@ -101,6 +101,10 @@ func classifyErr(err error) int {
 		return cV2Model
 	}
 	if st, ok := status.FromError(err); ok {
+		// the server reports a condition that cannot be evaluated as validation_error: tell it apart by its text
+		if strings.Contains(st.Message(), "failed to evaluate relationship condition") {
+			return cErrCond
+		}
 		switch openfgav1.ErrorCode(st.Code()) {
 		case openfgav1.ErrorCode_validation_error, openfgav1.ErrorCode_invalid_tuple, openfgav1.ErrorCode_invalid_check_input,
 			openfgav1.ErrorCode_type_not_found, openfgav1.ErrorCode_relation_not_found, openfgav1.ErrorCode_invalid_user,
@@ -111,9 +115,6 @@ func classifyErr(err error) int {
 		}
 		if st.Code() == 4 || st.Code() == 1 {
 			return cTimeout
-		}
-		if strings.Contains(st.Message(), "failed to evaluate relationship condition") {
-			return cErrCond
 		}
 	}
 	return cErrOther
@@ -564,6 +565,9 @@ func (c *caseEnv) runServer(ctx context.Context, cached, v2 bool) []obs {
 func apiItemErrClass(e *openfgav1.CheckError) int {
 	switch x := e.GetCode().(type) {
 	case *openfgav1.CheckError_InputError:
+		if strings.Contains(e.GetMessage(), "failed to evaluate relationship condition") {
+			return cErrCond
+		}
 		if x.InputError == openfgav1.ErrorCode_authorization_model_resolution_too_complex {
 			return cErrDepth
 		}
